@@ -223,7 +223,7 @@ void check_construction(Mat<T, R, C> const &a, std::index_sequence<I...>)
   // element-wise writes through each kind of accessor
   for (int route = 0; route < 4; ++route)
   {
-    S w{fcppt::no_init{}};
+    S w(make_smat<T, R, C>(Mat<T, R, C>{})); // zero-filled, so that a misdirected write is seen deterministically
     (write_one<T, R, C, I>(w, a, route), ...);
     if (to_arr(w) != a) bad("element-writes", to_arr(w));
     Mat<T, R, C> buf3{};
